@@ -324,9 +324,17 @@ func (p *Path) visitInstr(fr *frame, instr ssa.Instruction) (ret bool) {
 		if ptr == nil {
 			p.rtPanic("invalid memory address or nil pointer dereference")
 		}
-		fr.set(instr, &(*ptr).(structure)[instr.Field])
+		st, isStruct := (*ptr).(structure)
+		if !isStruct {
+			p.unsupported(fmt.Sprintf("FieldAddr into %T (opaque host value)", *ptr))
+		}
+		fr.set(instr, &st[instr.Field])
 	case *ssa.Field:
-		fr.set(instr, copyVal(fr.get(instr.X).(structure)[instr.Field]))
+		st, isStruct := fr.get(instr.X).(structure)
+		if !isStruct {
+			p.unsupported(fmt.Sprintf("Field of %T (opaque host value)", fr.get(instr.X)))
+		}
+		fr.set(instr, copyVal(st[instr.Field]))
 	case *ssa.IndexAddr:
 		fr.set(instr, p.indexAddr(fr.get(instr.X), fr.get(instr.Index).(*Term), isSigned(instr.Index.Type())))
 	case *ssa.Index:
